@@ -727,11 +727,23 @@ func vfInitStdoutCapture() {
 }
 
 // vfStdoutFind returns the captured server message (one write) that contains key.
-func vfStdoutFind(key string) (string, bool) {
+func vfStdoutMark() int {
+	vfStdoutMu.Lock()
+	defer vfStdoutMu.Unlock()
+	return vfStdoutBuf.Len()
+}
+
+func vfStdoutFind(key string, mark int) (string, bool) {
 	vfStdoutMu.Lock()
 	defer vfStdoutMu.Unlock()
 	s := vfStdoutBuf.String()
-	i := strings.Index(s, key)
+	if mark > len(s) {
+		mark = 0 // the capture buffer was recycled
+	}
+	if mark > 64 {
+		s = s[mark-64:] // keep the reset sequence that precedes a message written right at the mark
+	}
+	i := strings.LastIndex(s, key)
 	if i < 0 {
 		return "", false
 	}
